@@ -121,7 +121,7 @@ func runLifecycle(sc *Scenario, out *Out) {
 	defer w.cancel()
 	w.step = 1
 	desc := fmt.Sprintf("%s with the deletion %s", st.Op, map[string]string{"dead": "completed before the call", "behind": "queued ahead of the call's command",
-		"ahead": "queued behind the call's command"}[st.Stop])
+		"ahead": "queued behind the call's command", "leaving": "done through the context while the queue is full and peers are leaving"}[st.Stop])
 	// two connected peers, one complete piece, one reader blocked on a missing piece
 	var remotes []*remoteConn
 	npeers := 2
@@ -249,6 +249,28 @@ func runLifecycle(sc *Scenario, out *Out) {
 		}
 		call()
 		time.Sleep(2 * time.Millisecond)
+		w.releaseAllNoWait()
+		kill()
+	case "leaving":
+		// The queue is full while the torrent is alive, some peers leave on their own (their exit
+		// path cannot queue its events and waits), then the torrent is stopped through its context.
+		w.pushGates()
+		if !w.park() {
+			return
+		}
+		for full := false; !full; {
+			select {
+			case w.t.Event <- peer.TorAddKnown{Addr: netip.MustParseAddrPort("192.0.2.250:9"), Kind: known.Tracker}:
+			default:
+				full = true
+			}
+		}
+		for k := 0; k < 4 && k < len(remotes); k++ {
+			remotes[k].c.Close()
+		}
+		time.Sleep(150 * time.Millisecond)
+		call()
+		w.cancel()
 		w.releaseAllNoWait()
 		kill()
 	case "ahead":
